@@ -757,7 +757,7 @@ pub fn run_tree<F: AdFrame>(flavor: Flavor, src: &mut Source, obs: &mut Observer
                             return Some(Op::new(R_OWNER_PULL, pool, r.range(0, n - 1), r.range(1, 5)));
                         }
                         if r.chance(1, 10) {
-                            return Some(Op::new(R_STATIC, r.range(0, 11), r.range(0, 5), r.range(0, 5)));
+                            return Some(Op::new(R_STATIC, r.range(0, 13), r.range(0, 5), r.range(0, 5)));
                         }
                         if g.flavor == Flavor::Eof && r.chance(1, 12) {
                             return Some(Op::new(R_LIFT, r.range(0, 24), r.range(0, 3), r.range(0, 6)));
@@ -1006,6 +1006,16 @@ pub fn run_tree<F: AdFrame>(flavor: Flavor, src: &mut Source, obs: &mut Observer
                             }
                         } else if op.k == R_DRAIN {
                             let mut it = t.until_exhausted();
+                            let (lo, hi) = it.size_hint();
+                            check!(
+                                obs,
+                                lo <= want.len() && hi.map(|h| h >= want.len()).unwrap_or(true),
+                                "tree.size-hint",
+                                "until_exhausted().size_hint() = ({}, {:?}) but {} frames follow",
+                                lo,
+                                hi,
+                                want.len()
+                            );
                             let mut got = Vec::new();
                             while got.len() <= want.len() + 4 {
                                 match it.next() {
@@ -1023,6 +1033,16 @@ pub fn run_tree<F: AdFrame>(flavor: Flavor, src: &mut Source, obs: &mut Observer
                             obs.probe(P_INTERLEAVED);
                             let mut it = t.into_interleaved_samples().into_iter();
                             let want_s: Vec<u64> = want.iter().flat_map(|f| f.channels()).map(F::sample_bits).collect();
+                            let (lo, hi) = it.size_hint();
+                            check!(
+                                obs,
+                                lo <= want_s.len() && hi.map(|h| h >= want_s.len()).unwrap_or(true),
+                                "tree.size-hint",
+                                "interleaved sample iterator size_hint() = ({}, {:?}) but {} samples follow",
+                                lo,
+                                hi,
+                                want_s.len()
+                            );
                             let mut got = Vec::new();
                             while got.len() <= want_s.len() + 4 {
                                 match it.next() {
@@ -1212,8 +1232,46 @@ pub fn model_iter_variant<T: Clone>(items: &[T], variant: i64, k: usize) -> (Vec
 
 /// Statically typed adaptor stacks (no boxing between the stages): the same adaptor applied
 /// twice in method-call syntax, and a few mixed chains, over a short finite leaf.
+/// An interleaved-sample reader cloned after `k` samples (mid-frame when `k` is not a multiple of
+/// the channel count): original and clone continue with the same remaining samples, and both end
+/// after exactly frames x channels samples.
+fn interleaved_clone<F: AdFrame>(as_iterator: bool, k: u64, obs: &mut Observer) -> Result<(), Violation>
+where
+    F::Channels: Clone,
+    F::Sample: std::fmt::Debug + PartialEq,
+{
+    let id = 2 + 16 * 5;
+    let len = 5u64;
+    let ch = F::CHANNELS as u64;
+    let k = k.min(len * ch);
+    let mk = || ProbeSignal::with(id, Some(len), F::leaf as fn(u32, u64) -> F).0;
+    let sample = |j: u64| -> Option<F::Sample> { if j < len * ch { Some(*F::leaf(id, j / ch).channel((j % ch) as usize).unwrap()) } else { None } };
+    if !as_iterator {
+        let mut a = mk().into_interleaved_samples();
+        for j in 0..k {
+            check_eq!(obs, a.next_sample(), sample(j), "static.interleaved", "interleaved sample {} of the original reader ({})", j, F::NAME);
+        }
+        let mut b = a.clone();
+        for j in k..len * ch + 2 {
+            check_eq!(obs, b.next_sample(), sample(j), "static.interleaved-clone", "sample {} from a reader cloned after {} samples ({})", j, k, F::NAME);
+            check_eq!(obs, a.next_sample(), sample(j), "static.interleaved", "interleaved sample {} of the original reader ({})", j, F::NAME);
+        }
+    } else {
+        let mut it = mk().into_interleaved_samples().into_iter();
+        for j in 0..k {
+            check_eq!(obs, it.next(), sample(j), "static.interleaved", "interleaved sample {} of the original iterator ({})", j, F::NAME);
+        }
+        let mut b = it.clone();
+        for j in k..len * ch + 2 {
+            check_eq!(obs, b.next(), sample(j), "static.interleaved-clone", "sample {} from an iterator cloned after {} samples ({})", j, k, F::NAME);
+            check_eq!(obs, it.next(), sample(j), "static.interleaved", "interleaved sample {} of the original iterator ({})", j, F::NAME);
+        }
+    }
+    Ok(())
+}
+
 fn static_stack_op<F: AdFrame>(op: Op, obs: &mut Observer) -> Result<(), Violation> {
-    let variant = op.a.rem_euclid(12);
+    let variant = op.a.rem_euclid(14);
     let q1 = op.b.rem_euclid(6);
     let q2 = op.c.rem_euclid(6);
     let gains = [4i64, 16, -12, 2, 8, -4]; // /8
@@ -1229,14 +1287,48 @@ fn static_stack_op<F: AdFrame>(op: Op, obs: &mut Observer) -> Result<(), Violati
         ($sig:expr, $f:expr, $delay:expr) => {{
             let mut s = $sig;
             let delay: u64 = $delay;
-            for n in 0..n_pull {
+            let mut snap = None;
+            let mut restored = false;
+            let mut n = 0u64;
+            let mut pulls = 0u64;
+            while pulls < n_pull + 3 && n < n_pull {
+                pulls += 1;
+                if n == 3 && q1 % 2 == 0 {
+                    // snapshot/restore of a running adaptor stack: continue on the clone
+                    s = s.clone();
+                }
+                if n == 2 && q2 % 2 == 0 && snap.is_none() {
+                    snap = Some(s.clone());
+                }
+                if n == 5 && !restored {
+                    if let Some(sn) = &snap {
+                        // rewind the running stack onto the earlier snapshot, in place
+                        s.clone_from(sn);
+                        n = 2;
+                        restored = true;
+                    }
+                }
                 let want: F = if n < delay { F::EQUILIBRIUM } else { ($f)(src_f(n - delay)) };
                 let exhausted = n >= delay + len;
-                check_eq!(obs, s.is_exhausted(), exhausted, "static.is_exhausted", "stack variant {} before frame {}", variant, n);
+                check_eq!(obs, s.is_exhausted(), exhausted, "static.is_exhausted", "stack variant {} before frame {}{}", variant, n, if restored { " (after clone_from onto the frame-2 snapshot)" } else { "" });
                 let got = s.next();
-                check_eq!(obs, got, want, "static.frame", "statically typed stack variant {} (params {}, {}), frame {}", variant, q1, q2, n);
+                check_eq!(obs, got, want, "static.frame", "statically typed stack variant {} (params {}, {}), frame {}{}", variant, q1, q2, n, if restored { " (after clone_from onto the frame-2 snapshot)" } else { "" });
+                n += 1;
             }
         }};
+    }
+    if variant >= 12 {
+        // (on fixed concrete formats: the readers' Clone needs bounds AdFrame does not carry)
+        let k = op.b.rem_euclid(6) as u64 * 2 + op.c.rem_euclid(6) as u64 + 1;
+        match op.c.rem_euclid(5) {
+            0 => interleaved_clone::<[i16; 2]>(variant == 13, k, obs)?,
+            1 => interleaved_clone::<[u8; 3]>(variant == 13, k, obs)?,
+            2 => interleaved_clone::<[f32; 9]>(variant == 13, k, obs)?,
+            3 => interleaved_clone::<f64>(variant == 13, k, obs)?,
+            _ => interleaved_clone::<[i32; 12]>(variant == 13, k, obs)?,
+        }
+        obs.probe(P_STATIC_STACK);
+        return Ok(());
     }
     match variant {
         0 => run!(mk().scale_amp(F::fparam(g1)).scale_amp(F::fparam(g2)), |f: F| f.scale_ref(F::fparam(g1)).scale_ref(F::fparam(g2)), 0),
